@@ -1,0 +1,26 @@
+//go:build verif
+
+package cli
+
+// Contracts for the deductive verifier in /verif (govc). This file contains comments only; it is compiled
+// only with the build tag "verif" and adds no code. Syntax: /verif/DESIGN.md, Appendix A.
+
+// The Run closure of "sign": planning happens only after a successful Open and with the strategy that is the OR of
+// the five flags; BulkUpdate is reached only if Open and PlanBulkUpdate succeeded and either nothing is replaced or
+// the line read from the terminal is "y" after trimming and lower-casing (C10, C11, C18).
+//@ func init#1$1
+//@   props C10 C11 C18
+//@   uses cli.smt2
+//@   requires ctx != nil && ctx.genAll != nil && ctx.genMissing != nil && ctx.genExpired != nil && ctx.genNewerConfig != nil && ctx.genChanged != nil
+//@   requires len(args) == 1
+//@   modifies DbState, FsWrites, FsContent
+//@   noframe
+//@   let OPEN = "invoke:gopki/generator/db.Database.Open"
+//@   atcall @C18,C10 gopki/generator/db.PlanBulkUpdate callres("invoke:gopki/generator/db.Database.Open", 1, 0) == nil
+//@   atcall @C11 gopki/generator/db.PlanBulkUpdate strat != 0 && strat == ((if deref(ctx.genAll) then 16 else 0) | (if deref(ctx.genMissing) then 1 else 0) | (if deref(ctx.genExpired) then 2 else 0) | (if deref(ctx.genNewerConfig) then 4 else 0) | (if deref(ctx.genChanged) then 8 else 0))
+//@   atcall @C18,C10 gopki/generator/db.BulkUpdate callres("invoke:gopki/generator/db.Database.Open", 1, 0) == nil && callres("gopki/generator/db.PlanBulkUpdate", 1, 1) == nil
+//@   atcall @C10 gopki/generator/db.BulkUpdate !called("(*bufio.Reader).ReadString", 1) ==> !anyRepl(seq(changeList), len(changeList))
+//@   atcall @C10 gopki/generator/db.BulkUpdate called("(*bufio.Reader).ReadString", 1) ==> (callres("(*bufio.Reader).ReadString", 1, 1) == nil && toLower(trimSpace(callres("(*bufio.Reader).ReadString", 1, 0))) == "y")
+//@   loop 1
+//@     invariant 0 <= idx && idx <= len(changeList)
+//@     invariant @C10 changeWarning == anyRepl(seq(changeList), idx)
